@@ -393,7 +393,7 @@ func (x *xtr) format(c *ast.CallExpr) string {
 		if i > 0 {
 			parts = append(parts, leanString(x, c, f[:i]))
 		}
-		if i+1 >= len(f) || !strings.ContainsRune("wsv", rune(f[i+1])) {
+		if i+1 >= len(f) || !strings.ContainsRune("wsvd", rune(f[i+1])) {
 			x.bad(c, "format verb in %q", f)
 		}
 		if arg >= len(c.Args) {
@@ -401,6 +401,13 @@ func (x *xtr) format(c *ast.CallExpr) string {
 		}
 		v := x.expr(c.Args[arg])
 		switch {
+		case f[i+1] == 'd':
+			// %d of an int / int64: its decimal text
+			if v.ty.k != kInt && v.ty.k != kConst {
+				x.bad(c.Args[arg], "%%d of %s", v.ty.lean())
+			}
+			x.usesRtX = true
+			parts = append(parts, "Go.fmtInt "+paren(x.co(c.Args[arg], v, tInt)))
 		case v.ty.k == kStr || v.ty.k == kErr:
 			parts = append(parts, paren(v.s))
 		case v.ty.k == kErrOpt:
